@@ -71,7 +71,7 @@ func Prop() *core.Prop {
 		},
 		Cases: func(tier string) int {
 			if tier == "thorough" {
-				return 20000
+				return 60000
 			}
 			return 960
 		},
